@@ -14,6 +14,9 @@ def run(rep, fb, tier):
 
 
 EXTRAS = [
+    lambda rep, fb, tier: __import__("vf.rules.pyrules", fromlist=["x"]).rule_py_union_content_index(rep),
+    lambda rep, fb, tier: __import__("vf.rules.pybind", fromlist=["x"]).rule_py_record_methods(rep),
+    lambda rep, fb, tier: __import__("vf.rules.pyrules", fromlist=["x"]).rule_py_none_guard(rep),
     lambda rep, fb, tier: st.rule_axis(rep, fb, methods=("num", "offsets_and_flattened", "localindex"), floor=100),
     lambda rep, fb, tier: origin.rule_origin(rep, fb),
     lambda rep, fb, tier: records.rule_regular_length(rep, fb),
